@@ -191,13 +191,27 @@ def _obs(res):
 # process([record]) alone, cached per worker process
 
 _ALONE = {}
+_SERVER = None      # engine/pristine.py server, started in warm()
+
+
+def _alone_in_pristine_process(req):
+    family, kind, policy, fcsname, p = req
+    s = family_settings(family, kind, policy, fcsname)
+    return run_process(build_list([p], FAMILIES[family]["varied"]), s)
 
 
 def alone(ctx, family, kind, policy, fcsname, p):
+    """process([record]) alone - computed in a process WITHOUT history when the pristine server is
+    up, so that process-global state (a memo keyed too coarsely ...) cannot make the joint run and
+    its reference wrong in the same way."""
     key = (family, kind, policy, fcsname, p)
     if key not in _ALONE:
-        s = family_settings(family, kind, policy, fcsname)
-        _ALONE[key] = run_process(build_list([p], FAMILIES[family]["varied"]), s)
+        if _SERVER is not None:
+            _ALONE[key] = _SERVER.request(key)
+            ctx.count("alone_executions_in_pristine_process")
+        else:
+            s = family_settings(family, kind, policy, fcsname)
+            _ALONE[key] = run_process(build_list([p], FAMILIES[family]["varied"]), s)
         ctx.count("transitions")
         ctx.count("alone_executions")
     return _ALONE[key]
@@ -624,6 +638,9 @@ def _run_degenerate(root, ctx):
 # ---------------------------------------------------------------------------
 
 def warm(tier="thorough"):
+    global _SERVER
+    from hvmc.engine import pristine
+    _SERVER = pristine.PristineServer(_alone_in_pristine_process, preload=pristine.preload_numba_kernels).start()
     for family in FAMILIES if tier != "quick" else ("nopad", "default", "n128"):
         for kind in KINDS:
             run_process(build_list([0, 9], FAMILIES[family]["varied"]),
@@ -638,6 +655,10 @@ NON_VACUITY = ["grouping_by_dt_permutes_rows", "dropped_recordings_cases", "majo
 
 
 def finalize(ctx, tier):
+    global _SERVER
+    if _SERVER is not None:
+        _SERVER.stop()
+        _SERVER = None
     if ctx.counters.get("roots", 0) < len(roots(tier, 0)):
         return      # partial run (replay): no vacuity verdict
     for name in NON_VACUITY:
